@@ -78,7 +78,13 @@ def _history_run_body(res, w, cfg, ops_rng, fault_rng, avoiding, avoid, seed, pr
         if r.violations:
             for v in r.violations:
                 res.violations.append((len(ops) - 1, v.prop, v.check, v.trigger, v.detail))
-            break
+            # a pure lookup-index deviation leaves tree and model in step: other
+            # properties' checks keep exploring the history (the C02 check stops here)
+            if prop == "C02" or any(not (v.prop == "C02" and v.check == "index")
+                                    for v in r.violations):
+                break
+            if sum(1 for x in res.violations if x[1] == "C02") > 50:
+                break
         for s in w.slots:
             if s is not None:
                 res.states.add(R.digest(canon(s.model.root, w.sym)))
